@@ -595,6 +595,22 @@ def _r5_structural_guard(fi, x, key_txt, base_txt):
                     return "follows __import__(%s) in the same function" \
                         % key_txt
         return None
+    # (h) the key was put into the mapping by an earlier statement: either
+    # `D[K] = ...` outright or `if K not in D: D[K] = ...`
+    for st in before:
+        cands = [st]
+        if isinstance(st, ast.If) and not st.orelse and isinstance(
+                st.test, ast.Compare) and len(st.test.ops) == 1 \
+                and isinstance(st.test.ops[0], ast.NotIn) \
+                and src(st.test.left) == key_txt \
+                and src(st.test.comparators[0]) == base_txt:
+            cands = list(st.body)
+        for c in cands:
+            if isinstance(c, ast.Assign) and any(
+                    isinstance(t, ast.Subscript) and src(t.value) == base_txt
+                    and src(t.slice) == key_txt for t in c.targets):
+                return "the key was stored into %s by an earlier statement " \
+                    "(%s)" % (base_txt, src(st).split("\n")[0])
     # (g)
     loop = None
     p = x
